@@ -3,6 +3,7 @@ package remote
 import (
 	"context"
 	"errors"
+	"fmt"
 	"log/slog"
 
 	"github.com/anthdm/hollywood/actor"
@@ -36,6 +37,11 @@ func (r *streamReader) Receive(stream DRPCRemote_ReceiveStream) error {
 		}
 
 		for _, msg := range envelope.Messages {
+			if !inRange(msg.TypeNameIndex, len(envelope.TypeNames)) || !inRange(msg.TargetIndex, len(envelope.Targets)) {
+				err := fmt.Errorf("envelope index out of range")
+				slog.Error("streamReader receive", "err", err)
+				return err
+			}
 			tname := envelope.TypeNames[msg.TypeNameIndex]
 			payload, err := r.deserializer.Deserialize(msg.Data, tname)
 
@@ -46,12 +52,25 @@ func (r *streamReader) Receive(stream DRPCRemote_ReceiveStream) error {
 			target := envelope.Targets[msg.TargetIndex]
 			var sender *actor.PID
 			// a negative sender index means "no sender".
-			if len(envelope.Senders) > 0 && msg.SenderIndex >= 0 {
-				sender = envelope.Senders[msg.SenderIndex]
+			if msg.SenderIndex >= 0 {
+				if !inRange(msg.SenderIndex, len(envelope.Senders)) {
+					// with an empty table the index is ignored: older writers send 0 for "no sender".
+					if len(envelope.Senders) > 0 {
+						err := fmt.Errorf("envelope sender index out of range")
+						slog.Error("streamReader receive", "err", err)
+						return err
+					}
+				} else {
+					sender = envelope.Senders[msg.SenderIndex]
+				}
 			}
 			r.remote.engine.SendLocal(target, payload, sender)
 		}
 	}
 
 	return nil
+}
+
+func inRange(idx int32, n int) bool {
+	return idx >= 0 && int(idx) < n
 }
